@@ -9,6 +9,10 @@ args = sys.argv[1:]
 jobs = 3
 if args[:1] == ["-j"]:
     jobs = int(args[1]); args = args[2:]
+UPDATE = "--update-meta" in args          # write the new verdicts into seeded/<id>/meta.json (after a strengthening)
+args = [a for a in args if a != "--update-meta"]
+EXTRA = [a[1:] for a in args if a.startswith("+")]      # +Cnn: also run that check against every selected fault
+args = [a for a in args if not a.startswith("+")]
 ids = sorted(d for d in os.listdir("/verif/seeded") if os.path.isfile("/verif/seeded/%s/patch.diff" % d)
              and (not args or any(d.startswith(a) for a in args)))
 
@@ -16,7 +20,7 @@ ids = sorted(d for d in os.listdir("/verif/seeded") if os.path.isfile("/verif/se
 def one(sid):
     meta = json.load(open("/verif/seeded/%s/meta.json" % sid))
     own = sid.split("-")[0]
-    checks = [own] + [c for c in meta.get("detected_by", []) if c != own]
+    checks = [own] + [c for c in meta.get("detected_by", []) + EXTRA if c != own]
     d = tempfile.mkdtemp(prefix="verif-reseed-")
     out = {}
     try:
@@ -32,6 +36,12 @@ def one(sid):
     finally:
         shutil.rmtree(d, ignore_errors=True)
     caught = [c for c, v in out.items() if v["rc"] == 1]
+    if UPDATE:
+        meta.setdefault("verified", {}).setdefault("checks", {})
+        for c, v in out.items():
+            meta["verified"]["checks"][c] = dict(rc=v["rc"], keys=v["keys"])
+        meta["detected_by"] = [c for c, v in meta["verified"]["checks"].items() if v["rc"] == 1]
+        json.dump(meta, open("/verif/seeded/%s/meta.json" % sid, "w"), indent=1)
     print(sid, "CAUGHT by %s" % caught[0] if caught else "MISSED %s" % {c: v["rc"] for c, v in out.items()}, flush=True)
     return sid, out
 
